@@ -316,4 +316,16 @@ MUTANTS = [
     M("c13.1-readable", "C13", "C13.1", FFF, "reader.sink.valid.eq(ctrl.readable),", "reader.sink.valid.eq(1),"),
     M("c13.3-bypass-state", "C13", "C13.3", FFF, "                # Store in DRAM.\n                dram_store.eq(1),", "                # Store in DRAM.\n                dram_store.eq(1),\n                dram_bypass.eq(dram_first),"),
     M("c13.3-both-sources", "C13", "C13.3", FFF, "                post_converter.source.connect(post_fifo.sink)\n            ),", "            ),\n            post_converter.source.connect(post_fifo.sink),"),
+    # ---- clauses added in the third wave (the reviewers' patches of that wave were lost with /tmp; these re-create the mechanisms) ----
+    M("c04.9-wrong-done", "C04", "C04.9", RFF, "                If(zqcs_executer.done,\n                    cmd.valid.eq(0),", "                If(sequencer.done,\n                    cmd.valid.eq(0),"),
+    M("c07.2-lane-novalid", "C07", "C07.2", ADF, "                If(port_from.cmd.valid,\n                    NextValue(sel, sel | 1 << port_from.cmd.addr[:log2_int(ratio)])\n                )", "                NextValue(sel, sel | 1 << port_from.cmd.addr[:log2_int(ratio)])"),
+    M("c07.5-conv-domain", "C07", ["C07.5", "C08.3"], XBF, "            self.submodules += ClockDomainsRenamer(clock_domain)(\n                LiteDRAMNativePortConverter(new_port, port, reverse))", "            self.submodules += LiteDRAMNativePortConverter(new_port, port, reverse)"),
+    M("c09.10-w-range", "C09", "C09.10", AXF, "w_buffer_level   = Signal(max=buffer_depth + 1)", "w_buffer_level   = Signal(max=buffer_depth)"),
+    M("c09.10-r-range", "C09", "C09.10", AXF, "r_buffer_level   = Signal(max=buffer_depth + 1)", "r_buffer_level   = Signal(max=buffer_depth)"),
+    M("c09.11-exit-pairing", "C09", "C09.11", AXF, "If((port.cmd.ready | rmw_cmd_done) & (w_buffer.sink.ready | rmw_data_done),", "If((port.cmd.ready | rmw_data_done) & (w_buffer.sink.ready | rmw_cmd_done),"),
+    M("c10.1-readcmd-drop", "C10", "C10.1", WBF, "        fsm.act(\"READ_CMD\",\n            If(~wishbone.cyc,\n                NextState(\"CMD\")\n            ).Else(\n                port.cmd.valid.eq(1),\n                port.cmd.we.eq(0),\n                port.cmd.addr.eq(rd_addr),\n                port.cmd.last.eq(rd_last),\n                If(port.cmd.ready,\n                    NextState(\"READ_DATA\")\n                )\n            )\n        )", "        fsm.act(\"READ_CMD\",\n            port.cmd.valid.eq(1),\n            port.cmd.we.eq(0),\n            port.cmd.addr.eq(rd_addr),\n            port.cmd.last.eq(rd_last),\n            If(port.cmd.ready,\n                NextState(\"READ_DATA\")\n            )\n        )"),
+    M("c12.3-connect-valid", "C12", "C12.3", DMF, "fifo.source.connect(source, omit={\"valid\", \"ready\", \"last\"}),", "fifo.source.connect(source, omit={\"ready\", \"last\"}),"),
+    M("c15.4-we-whole", "C15", "C15.4", ECF, "If(sink.we[i*ecc_width_from//8:(i+1)*ecc_width_from//8] != 0,", "If(sink.we != 0,"),
+    M("c15.5-halves", "C15", "C15.5", ECF, "ecc_rdata = LiteDRAMNativePortECCR(port_from.data_width, port_to.data_width, burst_cycles)", "ecc_rdata = LiteDRAMNativePortECCR(port_from.data_width, port_to.data_width)"),
+    M("c10.3-free-bytes", "C10", "C10.3", WBF, "wr_can_merge.eq(~wr_valid | ((wr_addr == wide_addr) & ((wr_sel & chunk_bit) == 0))),", "wr_can_merge.eq(~wr_valid | ((wr_addr == wide_addr) & ((wr_we & wr_chunk_we) == 0))),"),
 ]
